@@ -106,3 +106,56 @@ def in_graph_script(rng, n=None):
         if rng.random() < 0.3:
             L.append("  print hello")
     return "\n".join(L) + "\n", edges
+
+
+# ---------------------------------------------------------------------------------------------
+# names in the wrong role: every position that expects a framer / tasker / frame name is filled
+# with active, moot, aux and slave framers, NON-framer taskers (logger, server), frames, the
+# keywords me/main/all and an undefined name
+# ---------------------------------------------------------------------------------------------
+
+ROLE_SKELETON = """house h1
+logger lg to c14logs/
+server sv to c14logs/
+framer fa be active first a
+  frame a
+    %s
+  frame b
+framer mo be moot
+  frame m1
+framer ax be aux
+  frame x1
+framer sl be slave
+  frame s1
+"""
+ROLE_NAMES = ["fa", "mo", "ax", "sl", "lg", "sv", "nope", "me", "main", "all", "a", "b"]
+ROLE_ONE = ["go next if aux {X} is done", "go next if {X} is done", "go next if tasker {X} is started",
+            "go next if aux {X} in frame b is done", "go next if any in frame {X} is done",
+            "go next if any in framer {X} is done", "go next if aux ax in framer {X} is done",
+            "bid start {X}", "bid stop {X}", "bid ready {X}", "bid run {X}", "bid abort {X}",
+            "bid start {X} at 2j", "bid start {X} at 0.5",
+            "ready {X}", "start {X}", "stop {X}", "run {X}", "abort {X}",
+            "aux {X}", "aux {X} as t1", "aux {X} as mine", "aux {X} if elapsed > 1", "aux {X} as t1 via me.q",
+            "rear {X} as t1 in frame b", "rear {X} as mine be aux in frame {X}", "raze {X}", "raze {X} in frame b",
+            "put 1 into x of framer {X}", "put 1 into x of frame {X}", "put 1 into x of frame a of framer {X}",
+            "over {X}", "under {X}", "next {X}", "first {X}", "go {X}", "go {X} if elapsed > 1", "let {X} if elapsed > 1",
+            "do doer param per x of framer {X}", "set x of framer {X} with 1", "inc x of frame {X} by 1",
+            "timeout 2j", "repeat {X}", "print {X}", "done {X}", "native", "use {X}", "flo {X}"]
+ROLE_TWO = ["go next if aux {X} in framer {Y} is done", "go next if any in frame {X} in framer {Y} is done",
+            "go next if aux {X} in frame {Y} is done", "rear {X} as t1 in frame {Y}", "aux {X} as {Y}",
+            "go next if {X} in framer {Y} is done"]
+
+
+def role_scripts():
+    out = []
+    for t in ROLE_ONE:
+        if "{X}" not in t:
+            out.append(ROLE_SKELETON % t)
+            continue
+        for x in ROLE_NAMES:
+            out.append(ROLE_SKELETON % t.format(X=x))
+    for t in ROLE_TWO:
+        for x in ROLE_NAMES:
+            for y in ROLE_NAMES:
+                out.append(ROLE_SKELETON % t.format(X=x, Y=y))
+    return out
